@@ -22,7 +22,7 @@ from typing import List, Set, Tuple
 
 from .report import Ctx
 from .srcmodel import call_leaf, call_name, calls_in, const_str, contains, dotted, get_kwarg, qualname, src, walk_local
-from .util import enclosing_trys, guard_chain, nested_defs, root_name, strip_not
+from .util import body_raises, enclosing_trys, guard_chain, nested_defs, root_name, strip_not
 
 NX = {"e"}
 
@@ -153,8 +153,7 @@ def run(ctx: Ctx) -> int:
     ek_as = [s for s in walk_local(ad) if isinstance(s, ast.Assign) and root_name(s.targets[0]) == "extra_keys"]
     ok = bool(ek_if) and bool(ek_as)
     if ok:
-        body0 = ek_if[0].body[0]
-        ok = (isinstance(body0, ast.Raise)) or (isinstance(body0, ast.Expr) and isinstance(body0.value, ast.Call) and ctx.noreturn(body0.value))
+        ok = body_raises(ek_if[0].body, ctx.noreturn) is not None
         v = ek_as[0].value
         ok = ok and isinstance(v, ast.BinOp) and isinstance(v.op, ast.Sub) and "val.keys()" in ast.unparse(v.left) and "__annotations__" in ast.unparse(v.right)
         ga = ctx.cfg(ad)
@@ -172,8 +171,8 @@ def run(ctx: Ctx) -> int:
     tests = [n for n in walk_local(pa) if isinstance(n, ast.If) and isinstance(n.test, ast.Name) and n.test.id == unk]
     ok = bool(tests)
     if ok:
-        b0 = tests[0].body[0]
-        ok = isinstance(b0, ast.Expr) and isinstance(b0.value, ast.Call) and call_leaf(b0.value) == "error" and ctx.noreturn(b0.value)
+        b0 = body_raises(tests[0].body, ctx.noreturn)
+        ok = b0 is not None and isinstance(b0, ast.Expr) and call_leaf(b0.value) == "error"
     rets = [r for r in walk_local(pa) if isinstance(r, ast.Return)]
     if ok:
         tn = [i for t in tests for i in g.node_ids_of(t)]
